@@ -71,7 +71,11 @@ class DUCCIO():
         # initialize final strengths on first call, if not done explicitly at construction
         with torch.no_grad():
             if self.final_strengths is None:
-                self.final_strengths = tuple(torch.maximum(torch.tensor(0.0), self.task_loss / (model.get_cost(n) - t)) for n, t in self.targets.items())
+                # a metric already at (or below) its target gets no pressure (and no division by zero)
+                excess = tuple(model.get_cost(n) - t for n, t in self.targets.items())
+                self.final_strengths = tuple(
+                    torch.maximum(torch.tensor(0.0), self.task_loss / e) if e > 0 else torch.tensor(0.0)
+                    for e in excess)
 
         cost = torch.tensor(0.0)
         for (cost_name, target), strength in zip(self.targets.items(), self.final_strengths):
